@@ -63,3 +63,42 @@ fn c07_seq_validation_rejects_impossible_tables() {
 	kani::cover!(!ok && which == 1, "missing smallest rejected");
 	core::mem::forget(tables);
 }
+
+/// C07-O3: the snapshot record of the manifest is read back exactly - for every sequence number and
+/// every creation time SnapshotInfo::decode(SnapshotInfo::encode(s)) == s, the record is 24 bytes, and
+/// a record cut short (0..=23 bytes) is an error, never a panic.  (load_from_file decodes one such
+/// record per registered snapshot; a field read back with another width or byte order would make a
+/// manifest the store wrote unreadable or silently change the snapshot list.)
+#[kani::proof]
+#[kani::unwind(26)]
+#[kani::stub(std::fmt::format, crate::verif_models::no_format)]
+fn c07_snapshot_info_codec_roundtrip() {
+	let seq: u64 = kani::any();
+	let at: u128 = kani::any();
+	let s = SnapshotInfo { seq_num: seq, created_at: at };
+	let r = s.encode();
+	let enc_ok = r.is_ok();
+	assert!(enc_ok, "SnapshotInfo::encode failed");
+	if let Ok(buf) = &r {
+		assert!(buf.len() == 24, "manifest snapshot record has an unexpected size");
+		let d = SnapshotInfo::decode(&buf[..]);
+		let (dec_ok, dseq, dat) = match &d {
+			Ok(x) => (true, x.seq_num, x.created_at),
+			Err(_) => (false, 0, 0),
+		};
+		#[cfg(verif_replay)]
+		println!("REPLAY SnapshotInfo seq={} created_at={} -> decoded ok={} seq={} created_at={}", seq, at, dec_ok, dseq, dat);
+		assert!(dec_ok, "snapshot record written by encode is rejected by decode");
+		assert!(dseq == seq && dat == at, "snapshot record changed in the round trip");
+		let cut: usize = kani::any();
+		kani::assume(cut < 24);
+		let d2 = SnapshotInfo::decode(&buf[..cut]);
+		let short_ok = d2.is_ok();
+		core::mem::forget(d2);
+		assert!(!short_ok, "a snapshot record cut short is accepted");
+		kani::cover!(seq > u32::MAX as u64 && at > u64::MAX as u128, "fields above 32 / 64 bits");
+		kani::cover!(cut == 23, "record cut one byte short");
+		core::mem::forget(d);
+	}
+	core::mem::forget(r);
+}
